@@ -11,7 +11,9 @@ import (
 	"context"
 	"fmt"
 	"os"
+	"regexp"
 	"runtime"
+	"strings"
 	"sync"
 	"sync/atomic"
 	"time"
@@ -34,6 +36,17 @@ type input struct {
 	Delay    uint64 `json:"delay"`
 	RT       uint64 `json:"rt"`
 	Script   []step `json:"script"`
+	// registry history on ONE long-lived Ticker (Strategy == "registry")
+	Hist []rop `json:"hist,omitempty"`
+}
+
+// one op of a registry history: "sched" registers a NEW message M (numbered 0,1,2,... in
+// registration order) with strategy S ("std" | "backoff"); "cancel" ends message M's context;
+// "tick" delivers one tick
+type rop struct {
+	K string `json:"k"`
+	M int    `json:"m"`
+	S string `json:"s,omitempty"`
 }
 
 // probe wraps the real strategy (an injected collaborator: ScheduleRetransmissions takes the
@@ -201,6 +214,267 @@ func runCase(in input, budget time.Duration) (o obs, incon string, pan string) {
 	return o, "", ""
 }
 
+// ---------- registry histories: ONE long-lived Ticker shared by many messages ----------
+//
+// Drained states are recognised from goroutine dumps, never from expected counts (a count the
+// driver expects would make a message that silently stopped being ticked look like a case
+// that is merely slow): the ticker goroutine is parked in `for range t.ticks` again (so the
+// tick was handed to every handler it knows) and no goroutine created by
+// ScheduleRetransmissions exists (neither a registration nor a per-tick Tick call).
+var reGoroutine = regexp.MustCompile(`(?m)^goroutine (\d+) \[([^\]]*)\]:`)
+
+type regDump struct {
+	tickers    int // goroutines running Ticker.start
+	tickerIdle bool
+	spawned    int // goroutines created by ScheduleRetransmissions (registration or per-tick)
+}
+
+func regSnapshot() regDump {
+	buf := make([]byte, 1<<16)
+	for {
+		n := runtime.Stack(buf, true)
+		if n < len(buf) {
+			buf = buf[:n]
+			break
+		}
+		buf = make([]byte, 2*len(buf))
+	}
+	var d regDump
+	for _, g := range strings.Split(string(buf), "\n\n") {
+		m := reGoroutine.FindStringSubmatch(g)
+		if m == nil {
+			continue
+		}
+		body, created := g, ""
+		if i := strings.Index(g, "created by "); i >= 0 {
+			body, created = g[:i], g[i:]
+		}
+		if strings.Contains(created, "retransmission.ScheduleRetransmissions") {
+			d.spawned++
+			continue
+		}
+		if strings.Contains(body, "retransmission.(*Ticker).start") {
+			d.tickers++
+			d.tickerIdle = strings.HasPrefix(m[2], "chan receive")
+		}
+	}
+	return d
+}
+
+func regDrain(budget time.Duration, what string) {
+	waitFor(budget, what, func() bool {
+		d := regSnapshot()
+		return d.tickers == 1 && d.tickerIdle && d.spawned == 0
+	})
+}
+
+type regObs struct {
+	Logs     [][]uint64 `json:"logs"` // per message: tick numbers at which it was retransmitted
+	Handlers int        `json:"handlers"`
+}
+
+func runRegistry(in input, budget time.Duration) (o regObs, incon string, pan string) {
+	defer func() {
+		if r := recover(); r != nil {
+			if ic, ok := r.(inconclusive); ok {
+				incon = ic.what
+				return
+			}
+			pan = fmt.Sprint(r)
+		}
+	}()
+	// no ticker of an earlier case may still be winding down
+	waitFor(budget, "previous ticker gone", func() bool { return regSnapshot().tickers == 0 })
+	ticks := make(chan uint64)
+	ticker := retransmission.NewTicker(ticks)
+	var cancels []context.CancelFunc
+	defer func() {
+		close(ticks)
+		for _, c := range cancels {
+			c()
+		}
+		for i := 0; regSnapshot().tickers != 0 && i < 1000000; i++ {
+			runtime.Gosched()
+		}
+	}()
+	regDrain(budget, "ticker start")
+	var mu sync.Mutex
+	var logs [][]uint64
+	var tickNo uint64
+	logger := golog.Logger("verif-c17")
+	for _, op := range in.Hist {
+		switch op.K {
+		case "sched":
+			ctx, cancel := context.WithCancel(context.Background())
+			cancels = append(cancels, cancel)
+			mu.Lock()
+			m := len(logs)
+			logs = append(logs, []uint64{})
+			mu.Unlock()
+			kind := net.StandardRetransmissionStrategy
+			if op.S == "backoff" {
+				kind = net.BackoffRetransmissionStrategy
+			}
+			retransmission.ScheduleRetransmissions(ctx, logger, ticker, func() error {
+				mu.Lock()
+				logs[m] = append(logs[m], atomic.LoadUint64(&tickNo))
+				mu.Unlock()
+				return nil
+			}, retransmission.WithStrategy(kind))
+			regDrain(budget, "registration")
+		case "cancel":
+			if op.M >= 0 && op.M < len(cancels) {
+				cancels[op.M]()
+			}
+		case "tick":
+			n := atomic.AddUint64(&tickNo, 1)
+			ticks <- n
+			regDrain(budget, "tick")
+		}
+	}
+	mu.Lock()
+	for _, l := range logs {
+		o.Logs = append(o.Logs, append([]uint64{}, l...))
+	}
+	mu.Unlock()
+	o.Handlers = ticker.VerifHandlerCount()
+	return o, "", ""
+}
+
+func runRegistryCase(in input, em *lib.Emitter, id string) {
+	budget := 60 * time.Second
+	o, incon, pan := runRegistry(in, budget)
+	if incon != "" {
+		o, incon, pan = runRegistry(in, 4*budget)
+		if incon != "" {
+			nIncon++
+			em.Tally("inconclusive-" + incon)
+			return
+		}
+	}
+	ops := make([]string, 0, len(in.Hist))
+	nMsg, nTicks, nCancel := 0, 0, 0
+	// churn: a registration made after a tick that followed the cancellation of an earlier
+	// message, while a later-registered message is still live
+	live := map[int]bool{}
+	cancelledThenTicked, pendingCancel, churn := false, false, false
+	for _, op := range in.Hist {
+		switch op.K {
+		case "sched":
+			st := "Std"
+			if op.S == "backoff" {
+				st = "(Back {| tc := 0; delay := 1; rt := 1 |})"
+			}
+			ops = append(ops, fmt.Sprintf("RSchedule %d %s", nMsg, st))
+			if cancelledThenTicked && len(live) > 0 {
+				churn = true
+			}
+			live[nMsg] = true
+			nMsg++
+		case "cancel":
+			ops = append(ops, fmt.Sprintf("RCancel %d", op.M))
+			if live[op.M] {
+				delete(live, op.M)
+				pendingCancel = true
+			}
+			nCancel++
+		case "tick":
+			ops = append(ops, "RTick")
+			nTicks++
+			if pendingCancel {
+				cancelledThenTicked = true
+			}
+		}
+	}
+	logs := make([]string, len(o.Logs))
+	for i, l := range o.Logs {
+		logs[i] = lib.Pair(fmt.Sprint(i), lib.ListN(l))
+	}
+	term := fmt.Sprintf("(CReg %s %s %d)", lib.List(ops), lib.List(logs), o.Handlers)
+	out := map[string]interface{}{"logs": o.Logs, "handlers": o.Handlers}
+	if pan != "" {
+		term = "(CReg [RTick] [] 99)" // a panic is not an outcome the model has
+		out["panic"] = pan
+	}
+	em.Tally("registry")
+	em.Tally(fmt.Sprintf("registry-messages-%s", bucket(nMsg)))
+	if churn {
+		em.Tally("registry-with-churn")
+	}
+	em.Case(lib.Case{
+		ID:         id,
+		Coq:        term,
+		Key:        fmt.Sprintf("registry|%v", in.Hist),
+		Nontrivial: nMsg >= 2 && nTicks >= 3 && churn,
+		Sig:        map[string]interface{}{"strategy": "registry", "churn": churn, "cancel": nCancel > 0},
+		In:         in,
+		Out:        out,
+	})
+}
+
+// genRegistry builds a history with churn: messages come and go on one ticker, ticks pass
+// between a cancellation and the next registration, long-lived messages stay.
+func genRegistry(r *lib.Rng, maxOps int) []rop {
+	var h []rop
+	n := 0
+	var live []int
+	strat := func() string {
+		if r.Bool() {
+			return "backoff"
+		}
+		return "std"
+	}
+	for k := r.Range(1, 3); k > 0; k-- {
+		h = append(h, rop{K: "sched", M: n, S: strat()})
+		live = append(live, n)
+		n++
+	}
+	for len(h) < maxOps {
+		switch r.Intn(10) {
+		case 0, 1:
+			h = append(h, rop{K: "sched", M: n, S: strat()})
+			live = append(live, n)
+			n++
+		case 2, 3:
+			if len(live) > 0 {
+				// mostly an EARLIER-registered message ends (the later ones stay live)
+				i := 0
+				if r.Chance(1, 3) {
+					i = r.Intn(len(live))
+				}
+				h = append(h, rop{K: "cancel", M: live[i]})
+				live = append(live[:i], live[i+1:]...)
+				if r.Chance(2, 3) {
+					h = append(h, rop{K: "tick"})
+					if r.Chance(1, 2) {
+						h = append(h, rop{K: "sched", M: n, S: strat()})
+						live = append(live, n)
+						n++
+					}
+				}
+			}
+		case 4:
+			if n > 0 && r.Chance(1, 3) { // cancel again / cancel a message that is long gone
+				h = append(h, rop{K: "cancel", M: r.Intn(n)})
+				for i, m := range live {
+					if m == h[len(h)-1].M {
+						live = append(live[:i], live[i+1:]...)
+						break
+					}
+				}
+			}
+		default:
+			for k := r.Range(1, 4); k > 0; k-- {
+				h = append(h, rop{K: "tick"})
+			}
+		}
+	}
+	for k := r.Range(2, 8); k > 0; k-- {
+		h = append(h, rop{K: "tick"})
+	}
+	return h
+}
+
 func stratTerm(in input) string {
 	switch in.Strategy {
 	case "std":
@@ -214,6 +488,10 @@ func stratTerm(in input) string {
 var nIncon int
 
 func run(in input, em *lib.Emitter, id string) {
+	if in.Strategy == "registry" {
+		runRegistryCase(in, em, id)
+		return
+	}
 	budget := 20 * time.Second
 	o, incon, pan := runCase(in, budget)
 	if incon != "" {
@@ -255,7 +533,7 @@ func run(in input, em *lib.Emitter, id string) {
 	em.Tally(fmt.Sprintf("ticks-%s", bucket(ticks)))
 	em.Case(lib.Case{
 		ID:         id,
-		Coq:        fmt.Sprintf("{| c_strategy := %s; c_script := %s |}", stratTerm(in), script),
+		Coq:        fmt.Sprintf("(COne {| c_strategy := %s; c_script := %s |})", stratTerm(in), script),
 		Key:        fmt.Sprintf("%s|%d|%d|%d|%v", in.Strategy, in.TC, in.Delay, in.RT, in.Script),
 		Nontrivial: ticks >= 3 && (in.Strategy != "std" || deadTicks > 0),
 		Sig:        map[string]interface{}{"strategy": in.Strategy, "cancel": hasCancel, "overlap": hasBurst},
@@ -383,6 +661,59 @@ func main() {
 		}
 	}
 
+	// --- registry histories on ONE long-lived ticker
+	T, S, B, C := rop{K: "tick"}, func(m int) rop { return rop{K: "sched", M: m, S: "std"} },
+		func(m int) rop { return rop{K: "sched", M: m, S: "backoff"} }, func(m int) rop { return rop{K: "cancel", M: m} }
+	regCorpus := [][]rop{
+		// an earlier message ends, a tick passes, a new one is registered while a later one is live
+		{S(0), S(1), T, T, C(0), T, S(2), T, T, T, T, T, T, T, T, T},
+		{S(0), B(1), T, T, C(0), T, S(2), T, T, T, T, T, T, T, T, T},
+		{B(0), B(1), B(2), T, C(0), C(1), T, S(3), B(4), T, T, T, T, T, T, T, T, T, T, T},
+		{S(0), C(0), T, S(1), T, C(1), T, S(2), T, T},
+		{S(0), T, C(0), C(0), T, T},
+		{T, T, B(0), T, T, T, T, T, T, C(0), T},
+		{C(0), S(0), T},
+	}
+	for i, h := range regCorpus {
+		run(input{Strategy: "registry", Hist: h}, em, fmt.Sprintf("registry-corpus-%02d", i))
+	}
+	// small scope: two messages, the first ends after a ticks, b ticks pass, a third is
+	// registered, c more ticks (every strategy assignment)
+	for a := 0; a <= 2; a++ {
+		for b := 0; b <= 2; b++ {
+			for mask := 0; mask < 8; mask++ {
+				if o.Tier == "quick" && (a+b+mask)%3 != 0 {
+					continue
+				}
+				mk := func(i, m int) rop {
+					if mask&(1<<uint(i)) != 0 {
+						return B(m)
+					}
+					return S(m)
+				}
+				h := []rop{mk(0, 0), mk(1, 1)}
+				for i := 0; i < a; i++ {
+					h = append(h, T)
+				}
+				h = append(h, C(0))
+				for i := 0; i < b; i++ {
+					h = append(h, T)
+				}
+				h = append(h, mk(2, 2), T, T, T, T, T, T)
+				run(input{Strategy: "registry", Hist: h}, em, fmt.Sprintf("registry-small-%d-%d-%d", a, b, mask))
+			}
+		}
+	}
+	nReg := o.Count(120, 1500)
+	for i := 0; i < nReg; i++ {
+		r := rng.Fork(fmt.Sprintf("reg%d", i))
+		maxOps := r.Range(6, 40)
+		if r.Chance(1, 10) {
+			maxOps = r.Range(40, 150)
+		}
+		run(input{Strategy: "registry", Hist: genRegistry(r, maxOps)}, em, fmt.Sprintf("registry-%d", i))
+	}
+
 	// --- random
 	n := o.Count(260, 4000)
 	for i := 0; i < n; i++ {
@@ -419,5 +750,7 @@ func main() {
 	em.Close("a case is one ScheduleRetransmissions registration on a real Ticker driven through a script of "+
 		"sequential ticks, overlapping bursts (callbacks gated so that Tick calls overlap), a cancellation and dead ticks; "+
 		"distinct by (strategy, initial counters, script); non-trivial when it has >= 3 ticks and is a backoff schedule "+
-		"or has ticks after the cancellation", map[string]interface{}{"inconclusive": nIncon})
+		"or has ticks after the cancellation; or one history of registrations, cancellations and ticks on ONE long-lived "+
+		"Ticker (per message the tick numbers at which it was retransmitted), non-trivial when a message is registered "+
+		"after a tick that followed an earlier message's cancellation while another message is live", map[string]interface{}{"inconclusive": nIncon})
 }
